@@ -1,12 +1,16 @@
 """
-C18 — attribute proofs: field arithmetic of FP2Value (translator + laws + correspondence).
+C18 — attribute proofs: field arithmetic of FP2Value, Boneh encode/decode, bit-pair attestation rounds and scoring,
+Peng-Bao range proofs, serialisation.
 
 Link to the code:
   * translator tools/gen_fp2.py regenerates lean/Ipv8/C18/GenFP2.lean from value.py on every run;
-  * correspondence: the model's integer-level functions (driver drv_c18) vs the Python methods on random operands
-    with general denominators and several primes;
-  * oracle (independent of the model): every result is compared with exact fraction arithmetic in
-    F_p[w]/(w^2+w+1) computed here from first principles.
+  * correspondence: the model (driver drv_c18) vs the real code on the same inputs — the integer-level FP2Value
+    functions on random operands with general denominators; and the protocol functions of Proto.lean / Range.lean /
+    Ser.lean executed at the FP2Value operations on the randomness RECORDED from the real run (randint / shuffle /
+    _random_number / secure_randint are replaced inside the modules under test by recording stand-ins fed from ctx.rng):
+    whole attestations, challenges, responses, aggregates, scores, range-proof creation and check, byte strings;
+  * oracle (independent of the model): exact arithmetic on pairs in F_p[w]/(w^2+w+1), hashlib and Fraction written here
+    from first principles decide, for every generated case, whether the property itself holds on the implementation.
 """
 from __future__ import annotations
 
@@ -17,16 +21,28 @@ PROPERTY = "C18"
 LEAN_TARGETS = ["Ipv8.C18.Props"]
 PROPS_FILE = "Ipv8/C18/Props.lean"
 DRIVER = "drv_c18"
-RULE = ("operands: random FP2Value coefficient 6-tuples over primes p in PRIMES (p = 2 mod 3 and others), with classes "
-        "{general denominators, c/cC non-zero, zero numerator, unit denominator}; distinct = distinct (op, p, operands); "
-        "non-trivial = at least one operand has bC != 0 or cC != 0 (general denominator)")
+RULE = ("arithmetic: random FP2Value coefficient 6-tuples over primes p in PRIMES, classes {general denominators, c/cC "
+        "non-zero, zero numerator, unit denominator}; protocol: full attestation rounds with a FRESH key per round for the "
+        "formats sha256_4 / sha256 / sha512 (key sizes 8..32 bit primes), attribute values of length classes 0/1/2-8/9-63/64+, "
+        "challenge orders {full in order, shuffled, reversed, random subset, small subset, prefix, empty}; encode/decode on "
+        "small fresh keys with message spaces {[0,1,2], 0..255, shuffled, without the plaintext} and scripted retries; "
+        "synthetic relativity maps {equal, sub, over, neighbour, random}; integers of all sizes for ipack; range rounds "
+        "{inside, edge, outside (honest), outside by one, 8 kinds of cheating prover, 5 wrong ranges, tampered answers}. "
+        "distinct = distinct (kind, key modulus, value, order/operands); non-trivial = general denominators (arithmetic) "
+        "/ every protocol case")
 TRUSTED_BASE = [
     "tools/gen_fp2.py: AST translation of FP2Value.__add__/__sub__/__mul__/__floordiv__/inverse/wp_nominator (polynomial expressions only)",
-    "hand-written model of normalize/__eq__/intpow/_modinv/wp_* (Ipv8/C18/Model.lean), tied by the correspondence run",
-    "key generation, Weil pairing, primality testing and the computational soundness of the range proof are outside the model",
+    "hand-written model Ipv8/C18/{Model,Proto,Range,Ser}.lean, tied by the correspondence run on recorded randomness",
+    "the recording stand-ins for random.randint/shuffle, _random_number, secure_randint installed by the harness",
+    "hashlib (sha256/sha512): attribute hashes and the Fiat-Shamir hash of EL proofs (a finite table in the model)",
+    "key generation (ipv8_rust_tunnels primes, Weil pairing): outside the model; the order hypotheses are checked on every fresh key",
+    "no claim of computational soundness of the range proof against a prover who deviates arbitrarily",
 ]
 ASSUMPTIONS = ["FP2Value operands share one modulus (asserted by the code)",
-               "theorems hold in every commutative ring; invertibility of denominators is needed only to read a cross-multiplied identity as equality of fractions"]
+               "arithmetic theorems hold in every commutative ring; normalize/__eq__ theorems for every prime modulus",
+               "protocol theorems: BonehHyp (g^(p+1) = 1, h^t1 = 1, g^t1 != 1, (g^t1)^2 != 1), blinding factors in the subgroup of h",
+               "range completeness: w >= 3 and the prover's split has m1, m2 >= 0 (m2 < 0 has probability about 2^-15 per "
+               "attestation at the shipped bit space; such rounds are counted, not reported)"]
 
 PRIMES = [5, 11, 23, 29, 101, 1019, 65537, 2 ** 61 - 1, 2 ** 127 - 1]
 
@@ -385,7 +401,20 @@ def is_compressed(v):
     return v.c == 0 and v.aC == 1 and v.bC == 0 and v.cC == 0
 
 
-def check_key_hypotheses(ctx, sk, where):
+def small_keypair(ctx, key_size):
+    """generate_keypair below the API's minimum size (fast, diverse).  generate_keypair does not test g^t1 != 1; a random
+    element of the order-n subgroup has order t1 with probability about 1/t2, which is 2^-32 at the smallest size the API
+    allows but about 1/200 for 8-bit primes — such toy keys are drawn again (counted), not reported."""
+    from ipv8.attestation.wallet.primitives import boneh
+    for _ in range(50):
+        sk = boneh.generate_keypair(key_size)[1]
+        if check_key_hypotheses(ctx, sk, "toy key", report=False):
+            return sk
+        ctx.count("keyhyp:toy-key-redrawn")
+    raise RuntimeError("no usable toy key in 50 draws")
+
+
+def check_key_hypotheses(ctx, sk, where, report=True):
     """the order hypotheses the theorems assume, checked on the fresh key with the independent arithmetic"""
     p = sk.p
     g, h = fval(sk.g), fval(sk.h)
@@ -404,7 +433,7 @@ def check_key_hypotheses(ctx, sk, where):
     }
     bad = [k for k, v in ok.items() if not v]
     ctx.count("keyhyp:" + ("ok" if not bad else "+".join(bad)))
-    if bad:
+    if bad and report:
         ctx.oracle_fail("generate_keypair:order-hypotheses", f"{where}: fresh key violates {bad}",
                         {"kind": "key", "sk": sk.serialize().hex(), "violated": bad})
     return not bad
@@ -481,7 +510,7 @@ def exact_round(ctx: Ctx, batch: Batch, fmt: str, value: bytes, order_kind: str,
         if key_size is None:
             sk = alg.generate_secret_key()
         else:
-            sk = boneh.generate_keypair(key_size)[1]
+            sk = small_keypair(ctx, key_size)
     pk = sk.public_key()
     p = sk.p
     nfail0 = len(ctx.failures)
@@ -651,9 +680,8 @@ def encode_decode_cases(ctx: Ctx, batch: Batch, n_keys: int, per_key: int):
     rng = ctx.rng
     for _ in range(n_keys):
         ks = rng.choice([8, 8, 10, 12, 16, 24, 32])
-        pk, sk = boneh.generate_keypair(ks)
-        if not check_key_hypotheses(ctx, sk, "encode/decode"):
-            continue
+        sk = small_keypair(ctx, ks)
+        pk = sk.public_key()
         p = sk.p
         t2 = sk.n // sk.t1
         for _ in range(per_key):
